@@ -143,7 +143,7 @@ def ang_violations(D, R):
         i, j = np.unravel_index(err.argmax(), err.shape)
         out.append(("closed-form-abs",
                     f"|D[{i},{j}]-closed form| = {err[i, j]:.3e} >= 2^-10 "
-                    f"(D={Dd[i, j]!r}, closed form={R[i, j]!r})"))
+                    f"(D={float(Dd[i, j])!r}, closed form={float(R[i, j])!r})"))
     mid = (R >= MID) & (R <= math.pi - MID)
     if mid.any():
         rel = np.where(mid, err / np.where(mid, R, 1.0), 0.0)
@@ -151,7 +151,7 @@ def ang_violations(D, R):
             i, j = np.unravel_index(rel.argmax(), rel.shape)
             out.append(("closed-form-rel",
                         f"relative error {rel[i, j]:.3e} > 2^-17 at [{i},{j}] "
-                        f"(D={Dd[i, j]!r}, closed form={R[i, j]!r})"))
+                        f"(D={float(Dd[i, j])!r}, closed form={float(R[i, j])!r})"))
     if n and np.abs(np.diag(Dd)).max() >= ABS_ANG:
         out.append(("diagonal", f"self-distance {np.abs(np.diag(Dd)).max():.3e} >= 2^-10"))
     if n:
@@ -190,7 +190,8 @@ def euc_violations(D, R):
     bad = err > REL_EUC * R
     if bad.any():
         i, j = np.argwhere(bad)[0]
-        out.append(("closed-form", f"D[{i},{j}]={Dd[i, j]!r}, closed form {R[i, j]!r}"))
+        out.append(("closed-form",
+                    f"D[{i},{j}]={float(Dd[i, j])!r}, closed form {float(R[i, j])!r}"))
     if n:
         T = Dd[:, None, :] - Dd[:, :, None] - Dd[None, :, :]
         slack = 3 * REL_EUC * max(1e-300, float(Dd.max()))
@@ -282,7 +283,7 @@ def run(ctx):
     from pyunicorn.core.spatial_network import SpatialNetwork
     rng = ctx.rng
     quick = ctx.tier == "quick"
-    S = 1 if quick else 12           # budget scale
+    S = 3 if quick else 40           # budget scale
     ctx.rule = (
         "kernel level: dyadic sine/cosine tables (k/16, |k|<=20, incl. values that make the "
         "expression leave [-1,1]) and dyadic coordinates (k/4) for which float32 arithmetic is "
@@ -300,7 +301,19 @@ def run(ctx):
         "Euclidean) are sampled, not proved (partial)",
         "libm / numpy sin, cos, arccos, sqrt, powf: modelled as the real functions",
     ]
+    ctx.assumptions = [
+        "coordinates are finite; |lat| <= 90; Euclidean coordinates stay far from float32 "
+        "overflow / underflow (|x| <= 1e5, non-zero differences >= 2^-20)",
+        "no NaN coordinates (numpy argmin would return the first NaN)",
+        "reference distances are the closed forms of the float32-stored coordinates "
+        "(the grid casts its input to float32 at construction)",
+    ]
     ctx.proofs()
+    if not quick:
+        rc, out = common._run(["lake", "env", "leanchecker", "Pyunicorn.Properties.C12"],
+                              cwd=common.LEAN, timeout=1800)
+        ctx.obligation("leanchecker replays Pyunicorn.Properties.C12 through the kernel",
+                       "lean-kernel", rc == 0, out[-600:])
 
     suite_kernel_angular(ctx, K, rng, 250 * S)
     suite_kernel_euclid(ctx, K, rng, 200 * S, 4 if quick else 6)
@@ -311,6 +324,7 @@ def run(ctx):
     suite_geo_node_number(ctx, GeoGrid, rng, 60 * S)
     suite_weights(ctx, GeoGrid, GeoNetwork, rng, 60 * S)
     suite_link_distance(ctx, Grid, GeoGrid, GeoNetwork, SpatialNetwork, rng, 30 * S)
+    suite_climate_weights(ctx, GeoGrid, rng, 24 * S)
 
 
 # --------------------------------------------------------------------------
@@ -477,6 +491,28 @@ def suite_grid_node_number(ctx, Grid, rng, ncases):
                      {"space_seq": enc_ratmat(X), "x": enc_rats(q), "observed": ans,
                       "squared_distances": enc_rats(s2)})
     ctx.correspond("Lean gridNodeNumber (Rat) == Grid.node_number", reqs, impl)
+    # implementation-only stream: generic float coordinates / queries (decisions not exact, so
+    # no model comparison): the returned node is at minimal float64 distance up to 1e-12
+    for c in range(ncases // 2):
+        n = rng.choice([2, 5, 9, 20])
+        d = rng.randrange(1, 5)
+        X = np.array([[f32(rng.uniform(-10, 10)) for _ in range(n)] for _ in range(d)])
+        j = rng.randrange(n)
+        q = [float(X[k, j]) + rng.choice([0.0, rng.uniform(-1, 1), rng.uniform(-1e-3, 1e-3)])
+             for k in range(d)]
+        g = Grid(np.arange(2), X.reshape(d, n), silence_level=3)
+        dist = [math.sqrt(math.fsum((float(X[k, i]) - q[k]) ** 2 for k in range(d)))
+                for i in range(n)]
+        try:
+            got = int(g.node_number(tuple(q)))
+        except Exception as e:  # noqa
+            got = None
+        ctx.count("grid-node_number:float-stream")
+        ctx.case(("gnf", X.tobytes().hex(), tuple(q)), True)
+        if got is None or not (0 <= got < n) or dist[got] > min(dist) * (1 + 1e-12) + 1e-300:
+            ctx.fail({"kind": "lookup", "class": "Grid", "method": "node_number"},
+                     "Grid.node_number does not return a node at minimal distance",
+                     {"space_seq": X.tolist(), "x": q, "observed": got, "distances": dist})
 
 
 # --------------------------------------------------------------------------
@@ -562,6 +598,7 @@ def suite_rect(ctx, Grid, GeoGrid, rng, ncases):
 
 def suite_angular(ctx, GeoGrid, rng, ncases):
     reqs, outs, metas = [], [], []
+    stats = {"abs": 0.0, "rel": 0.0, "pairs": 0}
     for c in range(ncases):
         n = rng.choice([1, 2, 3, 5, 8, 12, 16])
         kind, lat, lon = gen_geo_coords(rng, n)
@@ -590,6 +627,13 @@ def suite_angular(ctx, GeoGrid, rng, ncases):
         ctx.case(("ang", tuple(lat), tuple(lon)), n >= 2,
                  {"suite": "GeoGrid.angular_distance", "lat": lat, "lon": lon} if n <= 3 else None)
         viol = ang_violations(D, R)
+        if not np.isnan(D).any() and D.shape == R.shape:
+            err = np.abs(D.astype(np.float64) - R)
+            stats["abs"] = max(stats["abs"], float(err.max()))
+            mid = (R >= MID) & (R <= math.pi - MID)
+            if mid.any():
+                stats["rel"] = max(stats["rel"], float((err[mid] / R[mid]).max()))
+            stats["pairs"] += n * n
         if not np.array_equal(D, D2, equal_nan=True):
             viol.append(("distance-alias", "GeoGrid.distance() != angular_distance()"))
         for clause, what in viol:
@@ -617,6 +661,11 @@ def suite_angular(ctx, GeoGrid, rng, ncases):
             return f"relative difference {(err[mid] / Mm[mid]).max():.3e} > 2^-17"
         return None
 
+    ctx.extra["angular_error_observed"] = {
+        "pairs": stats["pairs"],
+        "max_abs_err_log2": round(math.log2(stats["abs"]), 2) if stats["abs"] else None,
+        "max_rel_err_mid_log2": round(math.log2(stats["rel"]), 2) if stats["rel"] else None,
+        "bounds_log2": {"abs": -10, "rel_mid": -17}}
     custom_correspond(ctx, "Lean angularDistance (Float) ~ GeoGrid.angular_distance "
                       "(abs < 2^-10, rel <= 2^-17 on [0.25, pi-0.25])", reqs, judge)
 
@@ -918,3 +967,75 @@ def suite_link_distance(ctx, Grid, GeoGrid, GeoNetwork, SpatialNetwork, rng, nca
                          f"{nm} is not the max/mean closed-form distance over the node's links",
                          dict(desc, adjacency=A.tolist(), directed=directed, expected=e,
                               observed=got))
+
+
+# --------------------------------------------------------------------------
+# J. the geographic weights of the climate-network classes built on GeoNetwork
+# --------------------------------------------------------------------------
+
+def suite_climate_weights(ctx, GeoGrid, rng, ncases):
+    from pyunicorn.climate.climate_network import ClimateNetwork
+    from pyunicorn.climate.coupled_climate_network import CoupledClimateNetwork
+    import contextlib
+    import io
+    combos = list(itertools.product(["ClimateNetwork", "CoupledClimateNetwork"],
+                                    ["surface", "irrigation", None],
+                                    ["init", "set_threshold", "set_link_density"]))
+    rng.shuffle(combos)
+    for c in range(ncases):
+        cls, wt, op = combos[c % len(combos)]      # every combination in every run
+        directed = rng.random() < 0.3
+        n1, n2 = rng.choice([2, 3, 4]), rng.choice([1, 2, 3])
+        n = n1 + n2
+        lat = [f32(rng.uniform(-89, 89)) for _ in range(n)]
+        lon = [f32(rng.uniform(-180, 180)) for _ in range(n)]
+        sim = np.array([[rng.randrange(0, 9) / 8 for _ in range(n)] for _ in range(n)])
+        if not directed:
+            sim = np.maximum(sim, sim.T)
+        np.fill_diagonal(sim, 1.0)
+        desc = {"class": cls, "lat": lat, "lon": lon, "similarity": sim.tolist(),
+                "node_weight_type": wt, "directed": directed, "after": op,
+                "N_1": n1 if cls == "CoupledClimateNetwork" else None}
+        try:
+            with contextlib.redirect_stdout(io.StringIO()):   # the joint grid is built verbose
+                if cls == "ClimateNetwork":
+                    g = GeoGrid(np.arange(2), np.array(lat), np.array(lon), silence_level=3)
+                    net = ClimateNetwork(g, sim, threshold=0.5, directed=directed,
+                                         node_weight_type=wt, silence_level=3)
+                else:
+                    g1 = GeoGrid(np.arange(2), np.array(lat[:n1]), np.array(lon[:n1]), silence_level=3)
+                    g2 = GeoGrid(np.arange(2), np.array(lat[n1:]), np.array(lon[n1:]), silence_level=3)
+                    net = CoupledClimateNetwork(g1, g2, sim, threshold=0.5, directed=directed,
+                                                node_weight_type=wt, silence_level=3)
+                if op == "set_threshold":
+                    net.set_threshold(0.25)
+                elif op == "set_link_density":
+                    net.set_link_density(0.5)
+                w = net.node_weights
+                A = np.array(net.adjacency)
+                awc = [float(v) for v in net.area_weighted_connectivity()]
+        except Exception as e:  # noqa
+            ctx.fail({"kind": "weights", "class": cls, "error": type(e).__name__},
+                     f"{cls}(node_weight_type={wt!r}) raised {type(e).__name__}: {e}", desc)
+            continue
+        cosl = [math.cos(math.radians(v)) for v in lat]
+        exp = {"surface": cosl, "irrigation": [v * v for v in cosl], None: [1.0] * n}[wt]
+        ctx.count(f"climate-weights:{cls}:type={wt}:{op}")
+        ctx.case(("cw", cls, tuple(lat), wt, op, sim.tobytes().hex(), directed), True,
+                 {"suite": "climate-weights", **desc} if n <= 4 else None)
+        if w is None or len(w) != n or any(abs(float(w[i]) - exp[i]) > TOL_W for i in range(n)):
+            ctx.fail({"kind": "weights", "class": cls, "method": "node_weights",
+                      "node_weight_type": str(wt)},
+                     f"{cls}.node_weights for node_weight_type={wt!r} are not the cos-lat "
+                     "weights of the nodes' own latitudes",
+                     dict(desc, expected=exp,
+                          observed=None if w is None else [float(v) for v in w]))
+        tot = math.fsum(cosl)
+        inn = [math.fsum(cosl[i] * int(A[i, j]) for i in range(n)) / tot for j in range(n)]
+        out = [math.fsum(cosl[j] * int(A[i, j]) for j in range(n)) / tot for i in range(n)]
+        e = [a + b for a, b in zip(inn, out)] if net.directed else inn
+        if len(awc) != n or any(abs(awc[i] - e[i]) > 2.0 ** -18 for i in range(n)):
+            ctx.fail({"kind": "awc", "class": cls, "method": "area_weighted_connectivity",
+                      "directed": directed},
+                     f"{cls}.area_weighted_connectivity is not the cos-lat weighted linked area",
+                     dict(desc, adjacency=A.tolist(), expected=e, observed=awc))
